@@ -21,6 +21,8 @@ class Val (V : Type) where
   abs : V → V
   /-- the float64 constant 1.1 (extrapolation threshold factor). -/
   c1_1 : V
+  /-- `int(math.Floor(v))` (index computation of `quantile`). -/
+  toIntFloor : V → Int
 
 /-- integers as values: used by the non-vacuity examples and the structural facts about
 counter-reset handling. -/
@@ -37,6 +39,7 @@ instance : Val Int where
   isInf _ := false
   abs a := (a.natAbs : Int)
   c1_1 := 1
+  toIntFloor a := a
 
 /-! ### label sets -/
 
@@ -55,6 +58,11 @@ def Labels.get (ls : Labels) (n : String) : String :=
 def Labels.keep (ls : Labels) (names : List String) : Labels := ls.filter (fun p => names.contains p.1)
 def Labels.del (ls : Labels) (names : List String) : Labels := ls.filter (fun p => !names.contains p.1)
 def Labels.dropName (ls : Labels) : Labels := ls.del [metricName]
+
+/-- `labels.Builder.Set`: replace or insert, keeping the order by name. -/
+def Labels.set (ls : Labels) (n v : String) : Labels :=
+  let rest := ls.filter (fun p => p.1 != n)
+  (rest.filter (fun p => p.1 < n)) ++ [(n, v)] ++ (rest.filter (fun p => !(p.1 < n)))
 
 /-- canonical text of a label set, `{a=x,b=y}` (the harness sorts series by it). -/
 def Labels.key (ls : Labels) : String :=
@@ -146,6 +154,7 @@ inductive Err where
   | dupLabelset   -- "vector cannot contain metrics with the same labelset"
   | manyToOne     -- "multiple matches for labels: many-to-one matching must be explicit"
   | dupMatch      -- "found duplicate series for the match group"
+  | groupingDup   -- "multiple matches for labels: grouping labels must ensure unique matches"
   | badType       -- an expression the subset does not type (never generated)
 deriving Repr, DecidableEq, Inhabited
 
@@ -153,6 +162,7 @@ def Err.text : Err → String
   | .dupLabelset => "dup-labelset"
   | .manyToOne => "many-to-one"
   | .dupMatch => "dup-match"
+  | .groupingDup => "grouping-dup"
   | .badType => "bad-type"
 
 /-- `mapM` in `Except`, written structurally so that proofs can unfold it. -/
